@@ -130,10 +130,13 @@ func GenSchemaDoc(c *Ctx, draft7 bool) map[string]any {
 func (g *schemaGen) wideSchema() map[string]any {
 	c := g.c
 	n := 33 + c.W(38)
+	if c.W(5) == 0 {
+		n = 130 + c.W(170) // beyond the next few powers of two as well
+	}
 	props := map[string]any{}
 	var req []any
 	for i := 0; i < n; i++ {
-		k := fmt.Sprintf("p%02d", i)
+		k := fmt.Sprintf("p%03d", i)
 		sub := map[string]any{}
 		g.leaf(sub)
 		props[k] = sub
